@@ -35,9 +35,22 @@ def install(interp):
         except TypeError as e:
             raise PyExc(TypeError, e.args)
 
+    def _dunder(x, *names):
+        """implicit conversion of an interpreted object: dispatch to its special method (None: not defined)"""
+        if isinstance(x, IObj):
+            for nm in names:
+                m, _ = x.cls.lookup(nm)
+                if m is not None:
+                    return (interp.call(m, [x], {}),)
+            raise PyExc(TypeError, (f"conversion of {x.cls.name!r} object: no {names[0]}",))
+        return None
+
     def py_int(x=0, *a):
         if isinstance(x, SInt):
             return x
+        r = _dunder(x, "__int__", "__index__", "__trunc__")
+        if r is not None:
+            return r[0]
         if isinstance(x, SBool):
             return wrap(tz(x))
         if isinstance(x, SReal):
@@ -53,6 +66,9 @@ def install(interp):
     def py_float(x=0.0):
         if isinstance(x, SInt):
             return wrap(z3.ToReal(x.t))
+        r = _dunder(x, "__float__", "__index__")
+        if r is not None:
+            return r[0]
         if isinstance(x, SReal):
             return x
         h = getattr(type(x), "_pyvc_float", None)
@@ -456,9 +472,28 @@ def install(interp):
 
     NO["math.prod"] = math_prod
 
+    def op_index(x):
+        if isinstance(x, SInt):
+            return x
+        r = _dunder(x, "__index__")
+        if r is not None:
+            return r[0]
+        import operator
+
+        try:
+            return operator.index(x)
+        except TypeError as e:
+            raise PyExc(TypeError, e.args)
+
+    NO["operator.index"] = op_index
+    NO["_operator.index"] = op_index
+
     def math_ceil(x):
         if isinstance(x, (SInt, SReal)):
             return x.__ceil__()
+        r = _dunder(x, "__ceil__", "__float__", "__index__")
+        if r is not None:
+            return math_ceil(r[0])
         import math
 
         return math.ceil(x)
@@ -466,6 +501,9 @@ def install(interp):
     def math_floor(x):
         if isinstance(x, (SInt, SReal)):
             return x.__floor__()
+        r = _dunder(x, "__floor__", "__float__", "__index__")
+        if r is not None:
+            return math_floor(r[0])
         import math
 
         return math.floor(x)
